@@ -137,9 +137,12 @@ def okp_export(crv, private):
     db = P.SBytes([z3.BitVec("d%d" % i, 8) for i in range(size)])
     pub_cls, priv_cls = OK.PUBLIC_KEYS_MAP[crv], OK.PRIVATE_KEYS_MAP[crv]
 
-    class Pub(pub_cls):
+    from vlib import ice as _ice
+
+    class Pub(_ice._FakeBase, pub_cls):
         def public_bytes(self, enc, fmt):
-            if enc.name != "Raw" or fmt.name != "Raw":
+            from cryptography.hazmat.primitives.serialization import Encoding, PublicFormat
+            if enc != Encoding.Raw or fmt != PublicFormat.Raw:
                 raise ValueError("wrong encoding")
             return xb
 
@@ -149,12 +152,13 @@ def okp_export(crv, private):
         def verify(self, *a):
             pass
 
-    class Priv(priv_cls):
+    class Priv(_ice._FakeBase, priv_cls):
         def public_key(self):
             return Pub()
 
         def private_bytes(self, enc, fmt, algo):
-            if enc.name != "Raw" or fmt.name != "Raw" or type(algo).__name__ != "NoEncryption":
+            from cryptography.hazmat.primitives.serialization import Encoding, PrivateFormat
+            if enc != Encoding.Raw or fmt != PrivateFormat.Raw or type(algo).__name__ != "NoEncryption":
                 raise ValueError("wrong encoding")
             return db
 
